@@ -242,9 +242,9 @@ func genC14(g *Rng, tier string, emit func(Op)) {
 		alt := func(class string, f func(in []ksIn) []ksIn) {
 			cp := make([]ksIn, len(in))
 			for i, x := range in {
-				cp[i] = ksIn{KeyID: x.KeyID, Value: new(big.Int).Set(x.Value), Commitment: new(big.Int).Set(x.Commitment), OtherCommitments: append([]*big.Int{}, x.OtherCommitments...)}
-				if len(cp[i].OtherCommitments) == 0 {
-					cp[i].OtherCommitments = nil
+				cp[i] = ksIn{KeyID: x.KeyID, Value: new(big.Int).Set(x.Value), Commitment: new(big.Int).Set(x.Commitment)}
+				for _, oc := range x.OtherCommitments {
+					cp[i].OtherCommitments = append(cp[i].OtherCommitments, new(big.Int).Set(oc)) // deep copy: the alterations mutate in place
 				}
 			}
 			emit(ksOp(partIDs, kssSecret, kssRand, hw, context, nonce, respReq.UserResponse, issig, f(cp), class, "err"))
